@@ -412,13 +412,13 @@ func TestCheck(t *testing.T) {
 	defer r.Finish()
 	bubble.WatchDeadlocks(3, func(frame, dump string) { r.DeadlockVerdict("c19", frame, dump) })
 
-	r.Group("sequences", r.Pick(96, 2000), func(i int, rng *report.Rand) {
+	r.Group("sequences", r.Pick(96, 320), func(i int, rng *report.Rand) {
 		conf := routing.ProphetConfig{PInit: prob(rng), Beta: prob(rng), Gamma: prob(rng), AgeInterval: "10s"}
-		if err := runSequence(r, conf, r.Pick(100, 1000), rng); err != nil {
+		if err := runSequence(r, conf, r.Pick(100, 600), rng); err != nil {
 			r.Violation("c19.node-deadlock-or-panic", err.Error(), map[string]interface{}{"config": fmt.Sprintf("%+v", conf)})
 		}
 		if i == 0 {
-			r.Sample(map[string]interface{}{"config": fmt.Sprintf("%+v", conf), "steps": r.Pick(100, 1000)})
+			r.Sample(map[string]interface{}{"config": fmt.Sprintf("%+v", conf), "steps": r.Pick(100, 600)})
 		}
 	})
 	r.Group("gate-grid", 28, func(i int, rng *report.Rand) {
